@@ -22,6 +22,7 @@ func init() {
 			{ID: "C04.1", Desc: "Vary read through all field lines", Run: func(c *Ctx) { ruleRLIST(c, "C04.1", "Vary") }, MinSites: 1},
 			{ID: "C04.2", Desc: "`*` tested per member", Run: ruleC04_2, MinSites: 1},
 			{ID: "C04.3", Desc: "variant id input is delimited", Run: ruleC04_3, MinSites: 1},
+			{ID: "C04.8", Desc: "the Vary resolver hands on every member of the list (a `*` member must reach the index)", Run: ruleC04_8, MinSites: 1},
 			{ID: "C04.4", Desc: "one normaliser on both sides", Run: func(c *Ctx) { ruleOneNormaliser(c, "C04.4") }, MinSites: 1},
 			{ID: "C04.5", Desc: "all nominated fields compared", Run: ruleC04_5, MinSites: 2},
 			{ID: "C04.6", Desc: "nominated request fields read through all lines", Run: func(c *Ctx) { ruleRLIST(c, "C04.6", "<nominated>") }, MinSites: 1},
@@ -92,10 +93,7 @@ func ruleRLIST(c *Ctx, rule, field string) {
 					okSites = append(okSites, where+" Values")
 					return
 				}
-				if presenceOnly(call) {
-					okSites = append(okSites, where+" presence test")
-					return
-				}
+				// (a presence test through Get is first-line-only as well: an empty first line hides the others)
 				bad++
 				c.Fail(rule, "first-line-only field="+field+" fn="+c.P.ShortName(fn), desc,
 					where+": Header.Get returns only the first field line; a second `"+field+"` line is ignored", where)
@@ -502,7 +500,9 @@ func ruleC04_5(c *Ctx) {
 			return hit
 		}
 		fromReq := func(v ssa.Value) bool {
-			return c.An.dependsOnCall(v, func(cc *ssa.Call) bool { return cc.Call.IsInvoke() && strings.HasPrefix(cc.Call.Method.Name(), "Normalize") }) ||
+			return c.An.dependsOnCall(v, func(cc *ssa.Call) bool {
+				return cc.Call.IsInvoke() && strings.HasPrefix(cc.Call.Method.Name(), "Normalize")
+			}) ||
 				func() bool {
 					hit := false
 					c.P.TraceBack(v, TraceOpts{ThroughOps: true, NoParams: true, NoHeapFields: true}, func(x ssa.Value, _ []int) bool {
@@ -532,4 +532,104 @@ func blockInCycleWith(b, head *ssa.BasicBlock) bool {
 
 func dominatedByLoop(b, head, done *ssa.BasicBlock) bool {
 	return head.Dominates(b) && !(done == b || done.Dominates(b))
+}
+
+// ruleC04_8: the matcher rejects an entry through the "*" key of its resolved map (C04.2), so the resolver on the storing
+// side must hand on every member of the Vary list: in the function that yields (name, value) pairs, no path from the
+// start of one member's turn to its end avoids the yield.
+func ruleC04_8(c *Ctx) {
+	if !c.Need("C04.8", "storeResp") {
+		return
+	}
+	desc := "every member of the Vary list is yielded by the resolver (none is skipped)"
+	n := 0
+	for _, f := range c.reachableFrom(c.A.F("storeResp")) {
+		if f.Pkg == nil && f.Parent() == nil {
+			continue
+		}
+		// a 2-string yield parameter (own or captured) called in f
+		var sites []ssa.Instruction
+		instrsOf(f, func(in ssa.Instruction) {
+			call := callOf(in)
+			if call == nil || call.IsInvoke() || call.StaticCallee() != nil || len(call.Args) != 2 {
+				return
+			}
+			sig, ok := call.Value.Type().Underlying().(*types.Signature)
+			if !ok || sig.Params().Len() != 2 || !isStringType(sig.Params().At(0).Type()) || !isStringType(sig.Params().At(1).Type()) || sig.Results().Len() != 1 || !isBoolType(sig.Results().At(0).Type()) {
+				return
+			}
+			// the value must be a yield parameter of an enclosing iterator, not a local function
+			isYield := false
+			for _, r := range c.P.Roots(call.Value, TraceOpts{NoParams: true}) {
+				if p, ok := r.(*ssa.Parameter); ok && p.Parent().Parent() != nil {
+					isYield = true
+				}
+			}
+			if !isYield {
+				return
+			}
+			// only the resolver: the second yielded value derives from a request header lookup
+			fromHeader := false
+			c.P.TraceBack(call.Args[1], TraceOpts{ThroughOps: true, ThroughExtern: true, NoParams: true, NoHeapFields: true}, func(v ssa.Value, _ []int) bool {
+				// a request header looked up under a computed (nominated) name
+				if lk, ok := v.(*ssa.Lookup); ok && isHTTPHeader(lk.X.Type()) {
+					if _, isC := lk.Index.(*ssa.Const); !isC {
+						fromHeader = true
+					}
+				}
+				if cc, ok := v.(*ssa.Call); ok && (callIsMethod(&cc.Call, "net/http", "Header", "Values") || callIsMethod(&cc.Call, "net/http", "Header", "Get")) {
+					_, args := recvAndArgs(&cc.Call)
+					if _, isC := args[0].(*ssa.Const); !isC {
+						fromHeader = true
+					}
+				}
+				return !fromHeader
+			})
+			if fromHeader {
+				sites = append(sites, in)
+			}
+		})
+		for _, y := range sites {
+			n++
+			where := c.P.ShortName(f) + "@" + c.P.InstrPos(y)
+			bad := ""
+			if !blockInCycle(y.Block()) {
+				// the function body is one member's turn (range-over-func loop body, or a per-member helper)
+				pr := c.An.Prune(f, nil)
+				r := c.An.MustPass(pr, nil, func(in ssa.Instruction) bool { return in == y })
+				if !r.OK {
+					bad = c.P.InstrPos(r.Missing[0]) + ": this return ends a member's turn without yielding it"
+				}
+			} else {
+				// an ordinary loop: from the loop head around to the loop head without passing the yield
+				yb := y.Block()
+				for _, h := range f.Blocks {
+					if !blockInCycle(h) || !h.Dominates(yb) || !reachableAvoiding(yb, h, nil) {
+						continue
+					}
+					for _, s := range h.Succs {
+						if s != yb && reachableAvoiding(s, h, yb) && reachableAvoiding(h, s, nil) && (s.Dominates(yb) || reachableAvoiding(s, yb, nil)) {
+							// s is inside the loop (can come back to h) and can do so avoiding the yield block
+							if reachableAvoiding(s, h, yb) && blockInLoopOf(s, h) {
+								bad = c.P.ShortName(f) + ": the loop at " + c.P.Pos(h.Instrs[0].Pos()) + " can start its next round without yielding (continue)"
+							}
+						}
+					}
+				}
+			}
+			if bad == "" {
+				c.Pass("C04.8", "resolver-yields-every-member fn="+c.P.ShortName(f), desc, where)
+			} else {
+				c.Fail("C04.8", "resolver-yields-every-member fn="+c.P.ShortName(f), desc, bad+"; `Vary: Accept-Encoding, *` is then stored with Accept-Encoding alone and served as a HIT without validation", where)
+			}
+		}
+	}
+	if n == 0 {
+		c.Undecided("C04.8", "resolver-yields-every-member", desc, "no (name, value) yield fed by a request header found on the storing path")
+	}
+}
+
+// blockInLoopOf: b lies on a cycle through h.
+func blockInLoopOf(b, h *ssa.BasicBlock) bool {
+	return b == h || reachableAvoiding(b, h, nil) && reachableAvoiding(h, b, nil)
 }
